@@ -17,10 +17,14 @@ import hv
 from hv import Case
 
 SPEC = {
-    "lean_modules": ["Honeycomb.Props.C16", "Honeycomb.Props.C16Cross"],
+    "lean_modules": ["Honeycomb.Props.C16", "Honeycomb.Props.C16Cross", "Honeycomb.Props.C16Clip", "Honeycomb.Props.C16Insert"],
     "required_theorems": ["C16_orientation_rejection_iff", "C16_orientation_accepts_iff_nodup", "C16_closed_loop_accepted",
                           "C16_repeated_origin_rejected", "C16_repeated_endpoint_rejected", "C16_grid_margins", "C16_grid_tight",
-                          "C16_crossings_sound", "C16_crossings_on_grid_lines", "C16_crossings_complete", "C16_crossings_sorted", "C16_crossings_count",
+                          "C16_crossings_sound", "C16_crossings_on_grid_lines", "C16_crossings_complete", "C16_crossings_sorted", "C16_crossings_count", "C16_metadata_order", "C16_metadata_same_intersections", "C16_metadata_spec",
+                          "C16_markFaces_spec", "C16_markFaces_err", "C16_markFaces_total", "C16_markFaces_err_iff",
+                          "C16_slots_genpos", "C16_hits_ranks", "C16_hits_all_written", "C16_group_sorted", "C16_intersection_ids_spec",
+                          "C16_intersection_ids_distinct", "C16_intersection_darts_spec", "C16_nan_slot_shifts_ids", "C16_deleteDarts_spec", "C16_deleteDarts_order_independent",
+                          "C16_clip_spec", "C16_clip_WF", "C16_clip_order_independent", "C16_clipLeft_spec", "C16_clipRight_spec",
                           "C16_between_crossings_one_cell"],
     "trusted_base": [
         "Lean 4.33 kernel; axioms propext, Classical.choice, Quot.sound only",
@@ -33,8 +37,25 @@ SPEC = {
         "segment, in the order of the segment; compared with the model's list — as equal exact rationals on the exact family "
         "(zonogons with sides (+-2^a, +-2^b), power-of-two cells: every f64 operation of the kernel is exact), within 1e-9 on "
         "general polygons — and with the independent Python computation; `gchain` checks that consecutive ones are joined "
-        "by an edge. The intermediate (dart, t) pairs are not observable through the public API (only their effect: the "
-        "inserted vertex) — a cfg(honeycomb_verif) accessor for generate_intersection_data would make that part of the tie direct",
+        "by an edge. Direct tie through the hook grisubal::verif::intersection_data (/repo dbd85ff): `gcrossd` dumps the real "
+        "intersection_metadata of one segment on a fresh grid, (dart id, t) in identifier order, unwritten slots as `0 nan`, compared "
+        "with the model's `slotsOf` (= `crossingsMeta` + the slots left at (0, NaN)) as IDENTICAL TEXT (dart ids and exact rational "
+        "t) on the exact family (1500 segments quick / 12000 thorough: power-of-two cells, dyadic ends, |dx|, |dy| in {0} u {2^a}, "
+        "grids up to 4000 cells, all ten code paths; + 400 / 3200 segments through 1..8 grid corners, four diagonal directions) and "
+        "with equal dart ids and t within 1e-9 on 500 / 4000 general segments",
+        "hand-written pure model of step 2 (Model/Grisubal.lean: hitsOf, groupOf, slicesFrom, idAssignments, intersectionIds, "
+        "intersectionDarts = group_intersections_per_edge + compute_intersection_ids, HashMap iteration order as a parameter): NOT "
+        "tied directly — these functions are crate-private and not behind the hook (requested: a cfg(honeycomb_verif) wrapper "
+        "`verif::intersection_darts(cmap: &mut CMap2<T>, metadata: Vec<(DartIdType, T)>) -> Vec<DartIdType>` running "
+        "group_intersections_per_edge + compute_intersection_ids + insert_intersections); its only observed consequence is the "
+        "panic it predicts (C16_nan_slot_shifts_ids) on exactly the corner cases where the real step-1 slots have a NaN slot before "
+        "a written one (stream `edges through grid corners`, 309 of 402 cases quick-sized, the other 93 satisfy every clause)",
+        "hand-written model Model/Clip.lean (clip_left / clip_right / mark_faces / delete_darts over the per-dart Boundary storage 9) "
+        "tied through the hook grisubal::verif::{clip_left, clip_right, Boundary}: protocol `bndinit` / `wbnd` / `clip left|right` on "
+        "both drivers; streams: 300 tagged grids (regions, missing / flipped / stray / explicit-None tags), every well-formed 2-map "
+        "with <= 3 darts (+ sampled 4-dart maps) x random tags, and the real pre-clip maps rebuilt from `grisubal none` with "
+        "recomputed tags (also checked: clipping them gives the mesh `grisubal left|right` returns); full `snap` + `wf` compared, "
+        "coordinates at live vertex identifiers only (stale slots depend on the HashSet order)",
         "Rust harness /verif/harness/hcimpl/src/gris.rs (writes the geometry as a legacy ASCII VTK file, calls the public "
         "grisubal) and tools/grisgeo.py + tools/props/c16.py (the exact oracle: independent crossings, areas, sides, coverage)",
         "vtkio's legacy reader (the geometry reaches the kernel through a file)",
@@ -42,7 +63,10 @@ SPEC = {
     "assumptions": [
         "general position is the generator's filter: no geometry vertex on a grid line of the grid the kernel chooses "
         "(origin = bounding-box minimum - 1.5 cells), no segment through a grid corner, simple pairwise disjoint loops, "
-        "consistent orientation (holes reversed)",
+        "consistent orientation (holes reversed); the stream `edges through grid corners` drops the corner restriction on an "
+        "exact family (cell-multiple steps {0,1,2,4}, so that the kernel's epsilon tests see exact 0 / 1), the stream `vertices on "
+        "grid lines` the vertex restriction (lattice 1/4, cell 1; not on corners, no origin shift); both lie outside the statement's "
+        "`general position` and are reported as findings D16c / D16d with structural signatures, never as violations of the GP clauses",
         "geometric clauses are validated on the f64 instantiation with tolerance 1e-9 (positions) / 1e-9 relative (areas); "
         "signs of face areas and all topology are exact; rounding itself is not modelled",
         "C16_crossings_* are stated over exact rationals for segments in eps-general position (GenPos: ends inside the grid "
@@ -58,7 +82,11 @@ SPEC = {
             "order; + exhaustive "
             "`orient` lists (all lists of <= 3 pairs over 3 vertices, random longer ones); + step-1 tie (`gcross`): 60 zonogons "
             "(exact family, equality of rationals) and 60 general polygons (1e-9), every segment, all code paths (same cell, "
-            "neighbour, row+-, column+-, four diagonal directions; counts in the evidence). thorough: x8. "
+            "neighbour, row+-, column+-, four diagonal directions; counts in the evidence); + direct step-1 tie (`gcrossd`, hook): 1500 "
+            "exact + 500 general + 400 corner segments; + clip tie (hook): tagged grids, all maps <= 3 darts, rebuilt real pre-clip maps; "
+            "+ 40 polygons with an edge through a grid corner x up to 3 segment orders x 3 clips, each with the real step-1 slots "
+            "probed through the hook; + 40 all-corner-poi polygons with a vertex on a grid line (lattice 1/4, cell 1) x 3 clips, same probes "
+            "(findings D16c / D16d; cases without an unwritten slot must satisfy every clause). thorough: x8. "
             "distinct_nontrivial = distinct implementation transcripts.",
     "not_proved": [
         "end-to-end geometric clauses (result well-formed and fully embedded, no negatively oriented face, every crossing "
@@ -68,24 +96,24 @@ SPEC = {
         "compute_overlapping_grid: detection of vertices on grid lines and termination of the shift loop (the sizing "
         "formulas are proved for any shift < 1/2 cell: C16_grid_margins); step 1 (generate_intersection_data) is modelled and "
         "proved for one segment over exact rationals under eps-general position (C16_crossings_*: sound, complete, sorted, count = "
-        "number of pre-allocated slots, one cell between consecutive crossings); NOT proved: that f64 rounding preserves these (the tie is exact only on the "
-        "exact family), the corner case IntersecCorner (outside general position), "
-        "group_intersections_per_edge / compute_intersection_ids, generate_edge_data, insert_edges_in_map: not modelled "
-        "(HashMap-ordered dart numbering, f64 epsilon bands); covered only by the end-to-end oracle",
-        "clip step (clip_left / clip_right: mark_faces BFS closure over the per-dart Boundary tags, InconsistentOrientation iff "
-        "the closure meets the other tag, delete_darts): NOT modelled. Reason: the step works on the Boundary attribute, which is "
-        "pub(crate) and removed before grisubal returns, and clip_left/clip_right are only re-exported pub(crate): neither the "
-        "tags nor the functions are reachable through the public API, so a model could not be tied on hand-made maps and the "
-        "tags of the real pipeline cannot be observed. What is checked instead, end to end on the real implementation: the "
-        "`side`, `area`, `region-area`, `segment-uncovered` clauses (exactly one side kept) and the rejection of loops nested "
-        "the wrong way round under clipping (stream `inconsistently nested loops`). Hook that would make it provable+tied "
-        "(not added; to be committed by the owner of /repo): in honeycomb-kernels/src/grisubal/mod.rs, "
-        "`#[cfg(honeycomb_verif)] pub mod verif { pub use super::model::{Boundary, Geometry2}; pub fn clip_left<T: CoordsFloat>"
-        "(m: &mut CMap2<T>) -> Result<(), GrisubalError> { super::routines::clip_left(m) } (same for clip_right); pub fn "
-        "intersection_data<T: CoordsFloat>(cmap: &CMap2<T>, g: &Geometry2<T>, n: [usize; 2], c: [T; 2], o: Vertex2<T>) -> "
-        "Vec<(DartIdType, T)> { super::routines::generate_intersection_data(cmap, g, n, c, o).1 } }` — the first two give a "
-        "`clip` protocol command on hand-made maps carrying Boundary tags, the third makes the (dart, t) pairs of step 1 "
-        "directly comparable with `crossingsOf` (today only their effect, the inserted vertex, is compared)",
+        "number of pre-allocated slots = C16_slots_genpos: no slot stays (0, NaN), one cell between consecutive crossings); NOT proved: "
+        "that f64 rounding preserves these (the tie is exact only on the exact family); segments through grid corners "
+        "(IntersecCorner) are modelled (`slotsOf`) and tied on the exact family but no theorem describes them beyond "
+        "C16_nan_slot_shifts_ids; step 1 is tied directly (dart ids and exact t) through the hook, and the identifier-indexed vector "
+        "is related to the vertex chain by C16_metadata_*",
+        "step 2 (group_intersections_per_edge, compute_intersection_ids) is modelled as pure functions and proved for EVERY HashMap "
+        "iteration order (C16_group_sorted, C16_intersection_ids_spec / _distinct / C16_intersection_darts_spec: each hit gets the "
+        "dart fh[i] / sh[len-1-i] of its edge's block, i = its rank along the edge by t — with C14_insertVertices_beta_structure and "
+        "C14_new_vertex_position_full that is `exactly one new dart pair per crossing, on its edge, in the order of t, and "
+        "intersection_darts[k] is the dart of that vertex on the side that was hit`), but NOT tied directly (no hook) and the "
+        "composition with insert_vertices_on_edge (step 3, model of C14) is stated in prose only, not as one theorem about a map; "
+        "steps 4-5 (generate_edge_data, insert_edges_in_map, mark_boundary): not modelled; covered only by the end-to-end oracle",
+        "clip step: modelled, tied through the hook and proved on the topology (Props/C16Clip.lean: closure, error, deletion for "
+        "every HashSet order, order independence, WF + 2-free boundary; mark_faces total: the loop ends within the model's fuel, "
+        "error iff a closure face carries the other tag). NOT proved: totality of delete_darts (panics on a kept boundary dart "
+        "without coordinates: modelled and tied); coordinates and vertex anchors after the clip (restored from the saved kept-boundary darts; which "
+        "stale slots keep a value depends on the HashSet order); that the tags written by insert_edges_in_map satisfy the "
+        "hypotheses of C16_clip_WF (pairing Left/Right along a closed boundary) — validated on the rebuilt pre-clip maps",
     ],
 }
 
@@ -630,12 +658,21 @@ def cross_tie(geos, exact):
 
 # ---- step 1, direct: the (dart, t) pairs of the real generate_intersection_data (hook verif::intersection_data) -------
 
-def segment_case(rng, exact):
+def segment_case(rng, exact, corner=False):
     """one segment on a fresh grid, in general position; exact family: power-of-two cells, dyadic ends, |dx|, |dy| in
-    {0} u {2^a}: every f64 operation of the four macros is exact"""
+    {0} u {2^a}: every f64 operation of the four macros is exact; `corner` (exact family only): the segment passes
+    through at least one grid corner, every other crossing being in general position"""
     import math
-    for _ in range(200):
-        if exact:
+    for _ in range(400):
+        if exact and corner:
+            cx, cy = Fr(2) ** rng.randint(-2, 1), Fr(2) ** rng.randint(-2, 1)
+            ox, oy = Fr(rng.randint(-32, 32), 8), Fr(rng.randint(-32, 32), 8)
+            dx = rng.choice([1, -1]) * Fr(2) ** rng.randint(-3, 3)
+            dy = rng.choice([1, -1]) * Fr(2) ** rng.randint(-3, 3)
+            s0 = Fr(rng.randrange(1, 32, 2), 32)
+            ax = ox + cx * rng.randint(2, 9) - s0 * dx
+            ay = oy + cy * rng.randint(2, 9) - s0 * dy
+        elif exact:
             cx, cy = Fr(2) ** rng.randint(-2, 1), Fr(2) ** rng.randint(-2, 1)
             ox, oy = Fr(rng.randint(-32, 32), 8), Fr(rng.randint(-32, 32), 8)
             dx = rng.choice([0, 1, 1, -1, -1]) * Fr(2) ** rng.randint(-3, 3)
@@ -665,7 +702,7 @@ def segment_case(rng, exact):
         # general position with the margin eps (hypothesis GenPos of C16_crossings_*)
         eps = Fr(1, 2 ** 40) if not exact else Fr(1, 2 ** 52)
         ok = True
-        crossings = 0
+        crossings = corners = 0
         for (p0, p1, q0, q1) in ((ua, ub, va, vb), (va, vb, ua, ub)):
             lo, hi = min(p0, p1), max(p0, p1)
             for K in range(math.ceil(lo), math.floor(hi) + 1):
@@ -673,22 +710,27 @@ def segment_case(rng, exact):
                 other = q0 + t * (q1 - q0)
                 frac = other - math.floor(other)
                 crossings += 1
-                if not (eps < t < 1 - eps and eps <= frac <= 1 - eps):
+                if corner and frac == 0 and eps < t < 1 - eps:
+                    corners += 1
+                elif not (eps < t < 1 - eps and eps <= frac <= 1 - eps):
                     ok = False
-        if not ok:
+        if not ok or (corner and corners == 0):
             continue
         di, dj = math.floor(ub) - math.floor(ua), math.floor(vb) - math.floor(va)
         br = "same-cell" if (di, dj) == (0, 0) else "neighbour" if abs(di) + abs(dj) == 1 else \
             ("row" + "+-"[di < 0]) if dj == 0 else ("column" + "+-"[dj < 0]) if di == 0 else "diagonal" + "+-"[di < 0] + "+-"[dj < 0]
+        if corner:
+            br = f"{br} through {corners // 2} corner(s)"
         line = "gcrossd " + " ".join(gg.rs(q) for q in (cx, cy, ox, oy)) + f" {nx} {ny} " + " ".join(gg.rs(q) for q in (ax, ay, bx, by))
         return line, br, crossings
     return None
 
 
-def step1_tie(rng, count, exact):
-    """hcmodel `crossingsOf` vs the hook `verif::intersection_data`: dart identifiers and relative positions t, in
-    identifier order; exact family: identical text (exact rationals); otherwise same darts, t within 1e-9"""
-    segs = [x for x in (segment_case(rng, exact) for _ in range(count)) if x]
+def step1_tie(rng, count, exact, corner=False):
+    """hcmodel `slotsOf` vs the hook `verif::intersection_data`: dart identifiers and relative positions t, in
+    identifier order, unwritten slots as `0 nan`; exact family: identical text (exact rationals); otherwise same darts,
+    t within 1e-9"""
+    segs = [x for x in (segment_case(rng, exact, corner) for _ in range(count)) if x]
     cases = [Case(f"step1-{'x' if exact else 't'}-{i // 40}", ["new 2 0 0"] + [x[0] for x in segs[i:i + 40]]) for i in range(0, len(segs), 40)]
     res = hv.run_pair(cases)
     stats = {"cases": len(segs), "lines": 0, "disagreements": 0, "oracle_failures": 0, "impl_outcomes": {}, "ops": {"gcrossd": len(segs)},
@@ -720,9 +762,236 @@ def step1_tie(rng, count, exact):
                                                   "theorem_or_correspondence": "crossingsOf (Model/Grisubal.lean) vs grisubal::verif::intersection_data"}})
         k += len(c.lines) - 1
     stats["distinct_nontrivial"] = len(distinct)
-    notes = [f"gcrossd tie ({'exact: identical text' if exact else 'same darts, t within 1e-9'}): {len(segs)} segments, {ncross} crossings, all inside the "
-             f"GenPos hypothesis of C16_crossings_*; code paths {dict(sorted(branches.items()))}"]
+    notes = [f"gcrossd tie ({'exact: identical text' if exact else 'same darts, t within 1e-9'}): {len(segs)} segments, {ncross} crossings, " +
+             ("each through at least one grid corner (outside GenPos: NaN slots)" if corner else "all inside the GenPos hypothesis of C16_crossings_*") +
+             f"; code paths {dict(sorted(branches.items()))}"]
     return {"stats": stats, "violations": violations, "samples": [{"case": "step1", "input": [segs[0][0]], "impl_output": res[0][1][1:2]}] if segs else [], "notes": notes}
+
+
+# ---- boundary segments through grid corners (outside general position, handled by the kernel: IntersecCorner) ----------
+
+def corner_geometry(rng):
+    """exact family: closed polygon of 3-6 edges whose steps are (cell size) x ({0} u {2^a}) in each direction, vertices at
+    cell centres-ish offsets so that no vertex lies on a grid line (no origin shift), at least one edge passing through a
+    grid corner strictly inside it"""
+    cx, cy = rng.choice([(Fr(1), Fr(1)), (Fr(1), Fr(2)), (Fr(1, 2), Fr(1)), (Fr(2), Fr(2)), (Fr(1, 2), Fr(1, 2))])
+    vals = [0, 1, 1, 2, 2, 4]
+    for _ in range(400):
+        k = rng.randint(3, 6)
+        steps = []
+        for _ in range(k - 1):
+            steps.append((rng.choice([1, -1]) * rng.choice(vals), rng.choice([1, -1]) * rng.choice(vals)))
+        last = (-sum(a for a, _ in steps), -sum(b for _, b in steps))
+        if abs(last[0]) not in vals or abs(last[1]) not in vals:
+            continue
+        steps.append(last)
+        if any(st == (0, 0) for st in steps):
+            continue
+        pts = [(0, 0)]
+        for a, b in steps[:-1]:
+            pts.append((pts[-1][0] + a, pts[-1][1] + b))
+        if len(set(pts)) != len(pts) or max(abs(x) for x, _ in pts) > 7 or max(abs(y) for _, y in pts) > 7:
+            continue
+        # vertices at integer offsets from the minimum, in cell units: the grid lines sit at min + 1/2 + Z
+        fx, fy = Fr(rng.choice([-3, 0, 1, 5]), 4), Fr(rng.choice([-2, 0, 3, 7]), 4)
+        lp = [(fx + x * cx, fy + y * cy) for x, y in pts]
+        if not gg.loops_simple([lp]):
+            continue
+        if gg.area2(lp) == 0:
+            continue
+        poi_mode = rng.choice(["all", "all", "none", "some"])
+        g = gg.Geometry([lp], gg.choose_poi(rng, [lp], poi_mode), (cx, cy), "corner")
+        g.interior_left, g.poi_mode = gg.area2(lp) > 0, poi_mode
+        ox, oy, nx, ny = g.grid()
+        if any(((x - ox) / cx).denominator == 1 or ((y - oy) / cy).denominator == 1 for x, y in g.verts):
+            continue
+        if g.general_position():
+            continue          # no edge through a corner
+        return g
+    return None
+
+
+def corner_cases(rng, count, cmd="grisubal", oracle_name="c16corner", obs=("wf", "snap")):
+    cases = []
+    k = 0
+    tries = 0
+    while k < count and tries < 40 * count:
+        tries += 1
+        g = corner_geometry(rng)
+        if g is None:
+            continue
+        k += 1
+        ox, oy, nx, ny = g.grid()
+        for rot in sorted({0, rng.randrange(len(g.segs)), rng.randrange(len(g.segs))}):
+            segs = g.segs[rot:] + g.segs[:rot]
+            if rng.random() < 0.3:
+                segs = segs[::-1]
+            probes = ["gcrossd " + " ".join(gg.rs(q) for q in (g.cell[0], g.cell[1], ox, oy)) + f" {nx} {ny} " +
+                      " ".join(gg.rs(q) for q in (*g.verts[a], *g.verts[b])) for a, b in segs]
+            for clip in ("none", "left", "right"):
+                cases.append(Case(f"{cmd}-corner-{k}-{rot}-{clip}", [g.line(cmd, clip, segs=segs)] + list(obs) + probes, oracle=oracle_name,
+                                  meta={"geo": g, "clip": clip, "expect": "mesh", "sig": f"corner-{clip}", "facts": facts_of(g), "nseg": len(segs),
+                                        "probe_at": 1 + len(obs)}))
+    return cases
+
+
+def nan_before_filled(probe_lines):
+    """the concatenation of the per-segment slot lists is `intersection_metadata`; True when a preallocated slot left at
+    (0, NaN) precedes a filled one (then `filter(!nan).enumerate()` of step 2 numbers the later intersections differently
+    from the `GeometryVertex::Intersec(id)` keys of step 1)"""
+    slots = []
+    for ln in probe_lines:
+        if not ln.startswith("ok"):
+            return None
+        slots += [x.split()[1] == "nan" for x in ln[2:].split(";") if x.strip()]
+    seen_nan = False
+    for is_nan in slots:
+        if is_nan:
+            seen_nan = True
+        elif seen_nan:
+            return True
+    return False
+
+
+def corner_oracle(case, li):
+    if case.oracle != "c16corner":
+        return None
+    if any(ln.startswith("<missing") for ln in li):
+        return "driver-died: " + li[0]
+    g, clip = case.meta["geo"], case.meta["clip"]
+    shifted = nan_before_filled(li[case.meta["probe_at"]:case.meta["probe_at"] + case.meta["nseg"]])
+    case.meta["facts"]["nan_slot_before_filled_slot"] = shifted
+    if shifted is None:
+        return "probe-failed: the step-1 hook refused a segment: " + "; ".join(li[3:])[:200]
+    res = li[0]
+    if res == "panic":
+        return "panic: grisubal panicked on a valid geometry (an edge passes through a grid corner)", ("nan-slot-shifts-intersection-ids" if shifted else None)
+    if res != "ok":
+        return f"refused: valid geometry answered {res!r}"
+    f = check_mesh(g, clip, gg.parse_snap(li[2]), li[1])
+    if not f:
+        return None
+    return "; ".join(f[:8]), None
+
+
+# ---- geometry vertices on grid lines (outside general position; the kernel keeps them: only corners shift the origin) -----
+
+def online_geometry(rng):
+    """exact family (cell 1, vertex lattice 1/4, every corner a point of interest): at least one vertex lies on a grid line
+    of the grid the kernel chooses; none on a grid corner, none whose two neighbours share a cell (those shift the origin),
+    no segment through a grid corner or along a grid line"""
+    import math
+    for _ in range(500):
+        k = rng.randint(3, 7)
+        lp = gg.star_polygon(rng, (rng.uniform(-2, 2), rng.uniform(-2, 2)), 0.8, 2.6, k, 4, convex=rng.random() < 0.5)
+        if not lp or not gg.loops_simple([lp]):
+            continue
+        g = gg.Geometry([lp], gg.choose_poi(rng, [lp], "all"), (Fr(1), Fr(1)), "online")
+        g.interior_left, g.poi_mode = True, "all"
+        ox, oy, nx, ny = g.grid()
+        onl = [((x - ox).denominator == 1, (y - oy).denominator == 1) for x, y in g.verts]
+        if not any(a or b for a, b in onl) or any(a and b for a, b in onl):
+            continue
+        n = len(lp)
+        cellof = lambda p: (math.floor(p[0] - ox), math.floor(p[1] - oy))
+        if any((a or b) and cellof(lp[(i - 1) % n]) == cellof(lp[(i + 1) % n]) for i, (a, b) in enumerate(onl)):
+            continue
+        ok = True
+        for (a, b) in g.segs:
+            p, q = g.verts[a], g.verts[b]
+            if (onl[a][0] and onl[b][0] and p[0] == q[0]) or (onl[a][1] and onl[b][1] and p[1] == q[1]):
+                ok = False
+            for i in range(nx + 1):
+                gx = ox + i
+                if (p[0] - gx) * (q[0] - gx) < 0:
+                    t = (gx - p[0]) / (q[0] - p[0])
+                    if (p[1] + t * (q[1] - p[1]) - oy).denominator == 1:
+                        ok = False
+        if not ok:
+            continue
+        g.on_line = [i for i, (a, b) in enumerate(onl) if a or b]
+        return g
+    return None
+
+
+def online_cases(rng, count, cmd="grisubal", oracle_name="c16online", obs=("wf", "snap")):
+    cases = []
+    k = 0
+    while k < count:
+        if k == 0:
+            # directed (D16d): vertex 1 lies on a horizontal grid line, the diagonal segment 0 -> 1 ending there comes last
+            lp = [(Fr(3, 2), Fr(-5, 2)), (Fr(5, 2), Fr(-5, 4)), (Fr(1), Fr(0)), (Fr(-1, 4), Fr(-3, 2)), (Fr(1), Fr(-11, 4))]
+            g = gg.Geometry([lp], [(0, i) for i in range(5)], (Fr(1), Fr(1)), "online")
+            g.interior_left, g.poi_mode, g.on_line = True, "all", [1]
+            rot = 1
+        else:
+            g = online_geometry(rng)
+            if g is None:
+                break
+            rot = rng.randrange(len(g.segs))
+        k += 1
+        ox, oy, nx, ny = g.grid()
+        segs = g.segs[rot:] + g.segs[:rot]
+        probes = ["gcrossd " + " ".join(gg.rs(q) for q in (g.cell[0], g.cell[1], ox, oy)) + f" {nx} {ny} " +
+                  " ".join(gg.rs(q) for q in (*g.verts[a], *g.verts[b])) for a, b in segs]
+        for clip in ("none", "left", "right"):
+            cases.append(Case(f"{cmd}-online-{k}-{clip}", [g.line(cmd, clip, segs=segs)] + list(obs) + probes, oracle=oracle_name,
+                              meta={"geo": g, "clip": clip, "expect": "mesh", "sig": f"online-{clip}", "facts": facts_of(g), "nseg": len(segs),
+                                    "probe_at": 1 + len(obs), "segs": segs}))
+    return cases
+
+
+def dropped_end_crossings(g, segs, probe_lines):
+    """vertices on a grid line whose crossing the diagonal branch of step 1 dropped: ends of a segment whose cells differ in
+    both directions and whose real slot list (hook) has an unwritten slot.  None if an unwritten slot has another origin."""
+    import math
+    ox, oy, nx, ny = g.grid()
+    cellof = lambda p: (math.floor((p[0] - ox) / g.cell[0]), math.floor((p[1] - oy) / g.cell[1]))
+    res = set()
+    for (a, b), ln in zip(segs, probe_lines):
+        if "nan" not in ln:
+            continue
+        ca, cb = cellof(g.verts[a]), cellof(g.verts[b])
+        ends = {v for v in (a, b) if v in g.on_line}
+        if ca[0] == cb[0] or ca[1] == cb[1] or not ends:
+            return None
+        res |= ends
+    return res
+
+
+def online_oracle(case, li):
+    if case.oracle != "c16online":
+        return None
+    if any(ln.startswith("<missing") for ln in li):
+        return "driver-died: " + li[0]
+    g, clip = case.meta["geo"], case.meta["clip"]
+    at = case.meta["probe_at"]
+    probes = li[at:at + case.meta["nseg"]]
+    shifted = nan_before_filled(probes)
+    if shifted is None:
+        return "probe-failed: the step-1 hook refused a segment: " + "; ".join(probes)[:200]
+    dropped = dropped_end_crossings(g, case.meta["segs"], probes)
+    case.meta["facts"].update({"nan_slot_before_filled_slot": shifted, "vertices_on_grid_lines": g.on_line,
+                               "dropped_end_crossings": sorted(dropped) if dropped is not None else None})
+    res = li[0]
+    if res == "panic":
+        return "panic: grisubal panicked on a valid geometry (a vertex lies on a grid line)", ("nan-slot-shifts-intersection-ids" if shifted else None)
+    if shifted:
+        return f"unexpected: a NaN slot precedes a written slot but the call answered {res!r}"
+    if res != "ok":
+        fin = "diagonal-branch-drops-end-crossing" if dropped and clip != "none" and res == "err InconsistentOrientation between-boundary-inconsistency" else None
+        return f"refused: valid geometry answered {res!r}", fin
+    s = gg.parse_snap(li[2])
+    f = check_mesh(g, clip, s, li[1])
+    if not f:
+        return None
+    fin = None
+    if dropped and {x.split(":")[0] for x in f} <= {"poi-missing"}:
+        pos = {s["a0"][v] for v in gg.Mesh(s).vertices}
+        missing = {v for v in g.poi_ids() if g.verts[v] not in pos}
+        if missing and missing <= dropped:
+            fin = "diagonal-branch-drops-end-crossing"
+    return "; ".join(f[:8]), fin
 
 
 # ---- clip step: model (Model/Clip.lean) vs the real clip_left / clip_right (hook grisubal::verif) -----------------------
@@ -900,6 +1169,7 @@ def run(tier, seed):
     parts.append(("overlapping grid: model sizing formula vs bounding box of the returned map", grid_tie(geo)))
     parts.append(("step 1 direct (hook intersection_data): (dart, t) pairs, model vs implementation, exact family", step1_tie(rng, 1500 * mult, True)))
     parts.append(("step 1 direct (hook intersection_data): (dart, t) pairs, general segments (t within 1e-9)", step1_tie(rng, 500 * mult, False)))
+    parts.append(("step 1 direct (hook intersection_data): segments through grid corners (NaN slots), exact family", step1_tie(rng, 400 * mult, True, corner=True)))
     parts.append(("clip step: model vs the real clip_left / clip_right on hand-made tagged maps", clip_tie(rng, tier)))
     pre = [c.meta["geo"] for c in geo if c.meta["clip"] == "none" and not c.meta["geo"].loops_crossing_nothing()
            and not c.meta["geo"].flat_chords()[0]][:40 * mult]
@@ -912,6 +1182,9 @@ def run(tier, seed):
     parts.append(("step 1 (crossings per segment): model vs implementation, general polygons (tolerance 1e-9)", cross_tie(gen, False)))
     parts.append(("loops inside one grid cell", gg.impl_campaign(tiny_loop_cases(rng, 8 * mult), oracle)))
     parts.append(("directed: nested V dips through one cell side", gg.impl_campaign(chevron_cases(), oracle)))
+    parts.append(("edges through grid corners (exact family; step-1 slots probed through the hook)", gg.impl_campaign(corner_cases(rng, 40 * mult), corner_oracle)))
+    parts.append(("vertices on grid lines (exact family, all corners points of interest; step-1 slots probed through the hook)",
+                  gg.impl_campaign(online_cases(rng, 40 * mult), online_oracle)))
     parts.append(("mis-oriented boundaries", gg.impl_campaign(misoriented_cases(rng, 40 * mult), oracle)))
     parts.append(("inconsistently nested loops with clipping", gg.impl_campaign(inconsistent_nesting_cases(rng, 30 * mult), oracle)))
     return hv.merge_results(parts)
